@@ -211,6 +211,8 @@ PLAN["C17"]["thorough"] = [j for j in PLAN["C17"]["thorough"] if not j["h"].star
 
 ABS_NOTE = ("Zobrist::move_piece abstracted by two arbitrary 64-bit values (same side / other side) xor a digest of the board it is asked "
             "about, after asserting that this board is the result of the action and the step is 0; its concrete meaning is the C08 step lemma")
+UPTO3_NOTE = ("in the C08 step lemma map_bit_board_to_squares is replaced by an exact loop-free version for masks with <= 3 bits whose "
+              "CUT assertion fails on larger masks (equivalence with the real loop: mbts_contract_k4)")
 IND_NOTE = ("the private 768-entry table lookup zobrist::piece_value replaced by the indicator of one symbolic (square, type, owner) triple: "
             "the hash delta is GF(2)-linear in the table with table-independent coefficients, so agreement for every triple is agreement for every "
             "table, in particular the real one (whose distinctness facts are C17)")
@@ -222,26 +224,27 @@ def hs(names, **kw):
 
 
 PLAN["C08"] = {
-    "quick": inst("c08_step", [(0, "none"), (3, "pull")], stubs="alloc+indicator") + hs(["c08_pass_s1_pull", "c08_place", "c08_views_s1_pull"], unwind=8, stubs="alloc") +
-             hs(["c08_from_scratch_k3"], unwind=8, stubs="alloc+indicator"),
-    "thorough": inst("c08_step", stubs="alloc+indicator", cap=5400) + hs(["c08_pass_s%d_%s" % (a, b) for a, b in PASS6] + ["c08_place"] +
+    "quick": inst("c08_step", [(0, "none"), (3, "pull")], stubs="alloc+indicator+upto3") + hs(["c08_pass_s1_pull", "c08_place", "c08_views_s1_pull", "mbts_contract_k4"], unwind=8, stubs="alloc") +
+             hs(["c08_from_scratch_k3"], unwind=8, stubs="alloc+indicator+upto3"),
+    "thorough": inst("c08_step", stubs="alloc+indicator+upto3", cap=5400) + hs(["c08_pass_s%d_%s" % (a, b) for a, b in PASS6] + ["c08_place"] +
                      ["c08_views_s0_none", "c08_views_s1_pull", "c08_views_s2_push", "c08_views_s3_none"], unwind=8, stubs="alloc") +
-                hs(["c08_from_scratch_k3", "c08_from_scratch_k6"], unwind=8, stubs="alloc+indicator", cap=7200),
+                hs(["c08_from_scratch_k3", "c08_from_scratch_k6"], unwind=8, stubs="alloc+indicator+upto3", cap=7200),
     "bounds": ("step lemma: all boards without unsupported trap piece, both sides, symbolic legal step, symbolic pre-hash, history <= 4 arbitrary entries, "
                "symbolic target triple; pass and placement: all states; from-scratch function: boards with <= KP pieces (3 quick, 6 thorough); real map_bit_board_to_squares, unwind 8"),
     "outside": "from-scratch hash of boards with more than KP pieces (the parser's path); boards with an unsupported trap piece in the step lemma (diff masks up to 6 bits still fit unwind 8, but B3 is assumed)",
-    "stubs": ALLOC_STUBS + "; " + IND_NOTE,
+    "stubs": ALLOC_STUBS + "; " + IND_NOTE + "; " + UPTO3_NOTE,
     "assumptions": [INV_RULES, "B3 in the pre-state of the step lemma", "the action is a legal step by the rule model"],
 }
 PLAN["C05"] = {
     "quick": hs(["c05_can_pass_s1_pull", "c05_can_pass_s3_none"], unwind=8, stubs="alloc") +
              hs(["c05_passing_like_s3_none"], unwind=8, stubs="alloc+absmove") +
-             inst("c08_step", [(3, "none")], stubs="alloc+indicator") + hs(["c08_pass_s2_none", "c08_place"], unwind=8, stubs="alloc"),
+             inst("c08_step", [(3, "none")], stubs="alloc+indicator+upto3") + hs(["c08_pass_s2_none", "c08_place"], unwind=8, stubs="alloc"),
     "thorough": hs(["c05_can_pass_s%d_%s" % (a, b) for a, b in INST] + ["c08_place"], unwind=8, stubs="alloc") +
                 hs(["c05_passing_like_s3_%s" % k for k in ("none", "pull", "push")], unwind=8, stubs="alloc+absmove") +
-                inst("c08_step", [(3, "none"), (3, "pull"), (3, "push")], stubs="alloc+indicator", cap=5400) +
+                inst("c08_step", [(3, "none"), (3, "pull"), (3, "push")], stubs="alloc+indicator+upto3", cap=5400) +
                 hs(["c08_pass_s%d_%s" % (a, b) for a, b in PASS6], unwind=8, stubs="alloc") +
-                hs(["c06_whole2_s3_%s" % k for k in ("none", "pull", "push")], unwind=10, stubs="alloc+indicator"),
+                hs(["c06_whole1_s3_%s" % k for k in ("none", "pull", "push")], unwind=8, stubs="alloc+indicator+upto3") +
+                hs(["c06_whole2_s3_%s" % k for k in ("none", "pull", "push")], unwind=10, stubs="alloc+indicator+upto3", cap=5400),
     "bounds": "all boards; hashes, turn-initial hash and up to 6 history entries are arbitrary 64-bit values; whole-function runs on boards with <= 2 pieces",
     "outside": "history lists longer than 6 entries (the count is a fold over the list); C05.4 (discarding history at captures is harmless) is a written monotonicity argument over C02/C08 invariants; the no-collision assumption",
     "stubs": ALLOC_STUBS + "; " + ABS_NOTE + "; " + IND_NOTE,
@@ -249,12 +252,13 @@ PLAN["C05"] = {
 }
 PLAN["C06"] = {
     "quick": hs(["c06_remove_s3_none", "c06_remove_s2_pull"], unwind=8, stubs="alloc+absmove") +
-             hs(["c06_whole2_s3_none", "c06_whole2_s1_pull"], unwind=10, stubs="alloc+indicator") +
+             hs(["c06_whole1_s3_none", "c06_whole1_s3_push"], unwind=8, stubs="alloc+indicator+upto3") +
              hs(["c05_passing_like_s3_pull"], unwind=8, stubs="alloc+absmove"),
     "thorough": hs(["c06_remove_s3_none", "c06_remove_s3_pull", "c06_remove_s3_push", "c06_remove_s2_pull", "c06_remove_s1_none"], unwind=8, stubs="alloc+absmove", cap=5400) +
-                inst("c06_whole2", unwind=10, stubs="alloc+indicator") + inst("c06_whole3", [(3, "none"), (3, "pull"), (3, "push")], unwind=14, stubs="alloc+indicator", cap=7200) +
+                hs(["c06_whole1_s3_none", "c06_whole1_s3_pull", "c06_whole1_s3_push"], unwind=8, stubs="alloc+indicator+upto3") +
+                inst("c06_whole2", unwind=10, stubs="alloc+indicator+upto3", cap=5400) + inst("c06_whole3", [(3, "none"), (3, "pull"), (3, "push")], unwind=14, stubs="alloc+indicator+upto3", cap=7200) +
                 hs(["c05_passing_like_s3_%s" % k for k in ("none", "pull", "push")], unwind=8, stubs="alloc+absmove"),
-    "bounds": "private filter: all boards, arbitrary 2-entry lists (steps or pass), history <= 6; whole functions: boards with <= 2 (3 thorough at step 3) pieces, history <= 4",
+    "bounds": "private filter: all boards, arbitrary 2-entry lists (steps or pass), history of 6 arbitrary entries; whole functions: boards with <= 1 piece (quick) / <= 2, <= 3 at step 3 (thorough), history of 4 arbitrary entries",
     "outside": "whole-function list relation on boards with more pieces (the filter is applied entry-wise by Vec::retain; decided on arbitrary lists through the hook)",
     "stubs": ALLOC_STUBS + "; " + ABS_NOTE + "; " + IND_NOTE + " (the list relation is table-independent)",
     "assumptions": [INV_RULES, COLLISION],
@@ -263,10 +267,11 @@ PN = ["term", "hasmove", "canpass"]
 PLAN["C07"] = {
     "quick": hs(["c07_summary_term_s0_none", "c07_summary_term_s2_pull", "c07_summary_hasmove_s1_push", "c07_summary_canpass_s1_none"], unwind=16, stubs="alloc+lowest") +
              hs(["c07_has_non_passing_s3_none"], unwind=8, stubs="alloc+absmove") +
-             hs(["c07_small2_term_s3_none"], unwind=10, stubs="alloc+indicator") + hs(["c09_offered"], unwind=8, stubs="alloc"),
+             hs(["c07_small1_term_s3_none", "c07_small1_hasmove_s3_pull"], unwind=8, stubs="alloc+indicator+upto3") + hs(["c09_offered"], unwind=8, stubs="alloc"),
     "thorough": hs(["c07_summary_%s_s%d_%s" % (pn, a, b) for pn in PN for a, b in INST], unwind=16, stubs="alloc+lowest") +
                 hs(["c07_has_non_passing_s3_none", "c07_has_non_passing_s3_pull", "c07_has_non_passing_s3_push", "c07_has_non_passing_s2_pull"], unwind=8, stubs="alloc+absmove", cap=5400) +
-                hs(["c07_small2_%s_s%d_%s" % (pn, a, b) for pn in PN for a, b in INST], unwind=10, stubs="alloc+indicator") +
+                hs(["c07_small1_%s_s3_%s" % (pn, b) for pn in PN for b in ("none", "pull", "push")], unwind=8, stubs="alloc+indicator+upto3") +
+                hs(["c07_small2_%s_s%d_%s" % (pn, a, b) for pn in PN for a, b in INST], unwind=10, stubs="alloc+indicator+upto3", cap=5400) +
                 hs(["c05_can_pass_s%d_%s" % (a, b) for a, b in INST], unwind=8, stubs="alloc") + hs(["c09_offered"], unwind=8, stubs="alloc"),
     "bounds": ("all boards for steps 0-2 and for step 3 after a capture (lowest-bit projection); step 3 without capture: private summary on arbitrary lists of <= 2 steps "
                "(all boards) and whole functions on boards with <= 2 pieces; history <= 6 arbitrary entries; setup: every reachable setup board"),
@@ -299,18 +304,6 @@ PLAN["C19"] = {
     "assumptions": [INV_RULES, "move_number < usize::MAX"],
 }
 
-PLAN["TMP"] = {
-    "quick": [{"h": h} for h in ["c07_summary_term_s2_pull", "c07_summary_hasmove_s0_none", "c07_summary_canpass_s1_none",
-                                 "c07_small1_term_s3_none", "c06_whole1_s3_none", "c06_whole2_s1_pull", "c07_small2_term_s2_none",
-                                 "c19_lists_s0_none", "c19_queries_s2_push", "c19_apply_s1_pull", "c19_pass_s3_none", "c19_setup_queries", "c19_setup_place",
-                                 "c16_print_square", "c16_print_action_move", "c16_action_parse_len3"]],
-    "thorough": [],
-}
-for j in PLAN["TMP"]["quick"]:
-    if j["h"].startswith("c19") or j["h"].startswith("c16"):
-        j["mode"] = "full"
-
-
 # ---- after the concrete-history change every take_action harness runs in 15-70 s: the quick tier
 # ---- of these families covers all 10 (step x pending) instances (a seeded change that needs
 # ---- step 3 + pending pull was missed by the 4-instance quick tier)
@@ -318,3 +311,21 @@ for _p in ("C02", "C03", "C10", "C12", "C13", "C14"):
     PLAN[_p]["quick"] = list(PLAN[_p]["thorough"])
     PLAN[_p]["outside"] = PLAN[_p]["outside"].replace("quick tier: only 3 of the 10 (step x pending) instances; ", "").replace(
         "quick tier: 3 of 10 take_action instances", "nothing inside the stated bounds").replace("quick tier: 3 of 10 instances", "nothing inside the stated bounds")
+
+
+# ---- recursion-bounded harnesses: declared with global unwind 2 (bounds recursion, i.e. the drop glue of the
+# ---- history list, which is never entered at run time in these harnesses but was explored 8 levels deep);
+# ---- every loop gets its own bound 8 through --unwindset (loop ids from cbmc --show-loops)
+REC_NOTE = "global unwind 2 bounds recursion only; all loops are given bound 8 through --unwindset (unwinding assertions on for both)"
+for _p in PLAN:
+    for _t in ("quick", "thorough"):
+        for _j in PLAN[_p][_t]:
+            if _j["h"].startswith("c08_step_") or _j["h"].startswith("c08_pass_"):
+                _j["loops_unwind"] = 8
+                _j["unwind"] = "2 (recursion) / 8 (loops)"
+                _j.setdefault("cap", 1500)
+for _p in PLAN:
+    for _t in ("quick", "thorough"):
+        for _j in PLAN[_p][_t]:
+            if _j["h"].startswith("c08_from_scratch"):
+                _j["stubs"] = "alloc+indicator (real map_bit_board_to_squares loop)"
